@@ -87,12 +87,47 @@ Theorem checked_run_equals_plain_run :
   run_chk Sy sxor s0 H0 R0 N0 fuel hist = lift Sy (ITProofs.run Sy sxor s0 H0 R0 N0 fuel hist).
 Proof. exact run_chk_eq. Qed.
 
+(* ---- the Reed-Solomon path and the encoder: same treatment (GJBounds.v, ApiBounds.v) ---- *)
+From OFV Require GaussJordan GJBounds ApiBounds.
+(* the in-place Gauss-Jordan inversion (three textual copies in the library): every access to the k x k matrix and to
+   indxc / indxr / ipiv / id_row in range, for every k and every k x k matrix; it refines the model unconditionally *)
+Theorem rs_matrix_inversion_stays_in_its_arrays_gf256 : forall k A, GaussJordan.wfN k A ->
+  GJBounds.invert_mat256_chk k A <> GJBounds.OutOfBounds.
+Proof. exact GJBounds.invert_mat256_chk_never_oob. Qed.
+Theorem rs_matrix_inversion_stays_in_its_arrays_gf16 : forall k A, GaussJordan.wfN k A ->
+  GJBounds.invert_mat16_chk k A <> GJBounds.OutOfBounds.
+Proof. exact GJBounds.invert_mat16_chk_never_oob. Qed.
+Theorem rs_checked_inversion_is_the_model : forall k A, GaussJordan.wfN k A ->
+  GJBounds.invert_mat256_chk k A = GJBounds.of_opt (GaussJordan.invert_mat256 k A).
+Proof. exact GJBounds.invert_mat256_chk_safe. Qed.
+(* the RS API layer: from the initial state, every call of any history (submissions with ESI < n, finish, tables of n
+   entries) reads and writes the availability table in range and equals the model *)
+Theorem rs_api_never_indexes_outside_its_table :
+  forall (B : Type) (core : nat -> list (option B) -> option (list B)) (cb : bool) (mk : nat -> B -> B),
+  (forall k t vals, core k t = Some vals -> length vals = k) ->
+  forall (k n : nat) (h : list (ApiBounds.op B)), k <= n -> (forall o, In o h -> ApiBounds.op_ok B n o) ->
+  forall h1 o h2, h = h1 ++ o :: h2 ->
+  let s := ApiBounds.runs B core cb mk (RSApi.rs_init B k n) h1 in
+  ApiBounds.RInv B s /\ RSApi.rn s = n /\
+  ApiBounds.call_chk B core cb mk s o = ApiBounds.Ret B (ApiBounds.call B core cb mk s o) /\
+  ApiBounds.RInv B (fst (ApiBounds.call B core cb mk s o)).
+Proof. exact ApiBounds.rs_history_every_call. Qed.
+(* the LDPC / 2D encoder: building the repair symbols reads only positions the matrix names, all below n *)
+Theorem ldpc_encoder_reads_inside_the_symbol_table :
+  forall (Sy : Type) (sxor : Sy -> Sy -> Sy) (s0 : Sy) (H : list (list nat)) (r n : nat),
+  (forall i x, i < r -> In x (nth i H []) -> x < n) -> r <= n ->
+  forall l : list Sy, length l = n -> ApiBounds.encode_all_chk Sy sxor s0 r H l <> ApiBounds.EOutOfBounds.
+Proof. exact ApiBounds.encode_all_chk_never_oob. Qed.
+
 (* ---- no dangling reference ---- *)
 Theorem every_block_a_table_names_is_live : forall s, HInv s ->
   forall b, In b (somes (hct s) ++ lib_blocks (htab s)) -> In b (live (hp s)).
 Proof. intros s H b Hb. destruct H as (_ & _ & _ & _ & (Hl & _) & _). apply Hl. exact Hb. Qed.
 
 Print Assumptions no_table_access_out_of_range_in_any_history.
+Print Assumptions rs_matrix_inversion_stays_in_its_arrays_gf256.
+Print Assumptions rs_api_never_indexes_outside_its_table.
+Print Assumptions ldpc_encoder_reads_inside_the_symbol_table.
 Print Assumptions checked_run_equals_plain_run.
 Print Assumptions every_block_a_table_names_is_live.
 Print Assumptions kernels_write_nothing_beyond_size.
